@@ -9,7 +9,7 @@
 (* The model's rational n/d is expanded by long division to the same limbs *)
 (* (needs d < 2*10^8) and compared with a tolerance in units of 1e-9.      *)
 (***************************************************************************)
-EXTENDS Rat
+EXTENDS Rat, TLC
 
 E4 == 10000
 E5 == 100000
@@ -41,7 +41,7 @@ LimbDiff(s1, h1, l1, s2, h2, l2, tol) ==
 \* recorded float f is within tol*1e-9 of rational p
 Near(f, p, tol) ==
     /\ IsFinite(f)
-    /\ Representable(p)
+    /\ Assert(Representable(p), <<"model value outside the fixed-point range (machinery)", p>>)
     /\ LET m == Limbs(p)
        IN LimbDiff(f[1], f[2], f[3], Sgn(p[1]), m[1], m[2], tol) <= tol
 
